@@ -30,18 +30,21 @@ class Obl(object):
 
 
 class PC(object):
-    """path condition: facts (assumed) + guards (short-circuit / conditional-expression context)"""
-    __slots__ = ("facts", "guards")
+    """path condition: facts (branch conditions and assumptions) + guards (short-circuit / conditional-expression
+    context). `assumed` holds the ids of the facts that are assumptions (definitions of fresh symbols, callee
+    postconditions) rather than branch conditions."""
+    __slots__ = ("facts", "guards", "assumed")
 
-    def __init__(self, facts=None, guards=None):
+    def __init__(self, facts=None, guards=None, assumed=None):
         self.facts = list(facts) if facts else []
         self.guards = list(guards) if guards else []
+        self.assumed = set(assumed) if assumed else set()
 
     def copy(self):
-        return PC(self.facts, self.guards)
+        return PC(self.facts, self.guards, self.assumed)
 
     def plus(self, c):
-        p = PC(self.facts, self.guards)
+        p = PC(self.facts, self.guards, self.assumed)
         if c is not True:
             p.facts.append(z3.BoolVal(False) if c is False else c)
         return p
@@ -50,6 +53,7 @@ class PC(object):
         """same facts list object (assumptions made under the guard are recorded as implications)"""
         p = PC.__new__(PC)
         p.facts = self.facts
+        p.assumed = self.assumed
         p.guards = self.guards + ([] if c is True else [z3.BoolVal(False) if c is False else c])
         return p
 
@@ -61,6 +65,7 @@ class PC(object):
         if self.guards:
             f = z3.Implies(z3.And(*self.guards) if len(self.guards) > 1 else self.guards[0], f)
         self.facts.append(f)
+        self.assumed.add(f.get_id())
 
     def hyp(self):
         return self.facts + self.guards
@@ -115,6 +120,7 @@ class Engine(object):
         self.npruned = 0
         self.max_paths = max_paths
         self.cur_func = None
+        self.classes = {}                  # class name -> {method name: FunctionDef}
         self._solver = None
         self.loop_cover = {}               # loop key -> reached
 
@@ -233,7 +239,14 @@ class Engine(object):
             else:
                 op = _CMP[type(opn)]
                 if isinstance(left, (ArrV, LazyArr)) or isinstance(right, (ArrV, LazyArr)):
-                    raise Unsupported("array comparison at line %d" % e.lineno)
+                    if len(e.ops) != 1:
+                        raise Unsupported("chained array comparison")
+                    la, ra = isinstance(left, (ArrV, LazyArr)), isinstance(right, (ArrV, LazyArr))
+                    n_ = left.n if la else right.n
+                    if la and ra:
+                        self.oblige("shape:%s@%d" % (ast.unparse(e)[:40], e.lineno), pc, cmp('==', left.n, right.n))
+                    return LazyArr(n_, lambda k, l=left, r_=right, la=la, ra=ra, op=op: cmp(
+                        op, split(st.elem(l, k))[0] if la else l, split(st.elem(r_, k))[0] if ra else r_))
                 l = self.need_finite(left, pc, 'cmp', e)
                 rr = self.need_finite(right, pc, 'cmp', e)
                 r = cmp(op, l, rr)
@@ -362,6 +375,18 @@ class Engine(object):
             args = [self.ev(a, st, pc) for a in e.args]
             kw = {k.arg: self.ev(k.value, st, pc) for k in e.keywords}
             return b(args, kw, st, pc, e)
+        if isinstance(e.func, ast.Attribute) and isinstance(e.func.value, ast.Name) and \
+                isinstance(st.vars.get(e.func.value.id), Rec):
+            rec = st.vars[e.func.value.id]
+            mname = e.func.attr
+            cls = self.classes.get(rec.cls)
+            if cls is not None and mname in cls:
+                key = "%s.%s" % (rec.cls, mname)
+                args = [self.ev(a, st, pc) for a in e.args]
+                kw = {k.arg: self.ev(k.value, st, pc) for k in e.keywords}
+                if key in self.call_models:
+                    return self.call_models[key](self, [rec] + args, kw, st, pc, e)
+                return self.inline_merge(cls[mname], [rec] + args, kw, st, pc, e)
         if isinstance(e.func, ast.Name):
             target = st.vars.get(fn)
             if isinstance(target, Closure):
@@ -398,20 +423,28 @@ class Engine(object):
         self.cur_func = fdef.name
         base = len(pc.hyp())
         try:
-            paths = self.exec_block(fdef.body, callee, pc.copy() if not pc.guards else PC(pc.hyp()))
+            paths = self.exec_block(fdef.body, callee, pc.copy() if not pc.guards else PC(pc.hyp(), None, pc.assumed))
         finally:
             self.cur_func = saved
         rets = []
         for (s2, pc2, out) in paths:
             if out is None:
                 out = ('ret', None)
+            if out[0] == 'raise':
+                self.oblige("callee-raises:%s.%s@%d" % (fdef.name, out[1], node.lineno), pc2, False)
+                continue
             if out[0] != 'ret':
                 raise Unsupported("callee %s ends with %s" % (fdef.name, out[0]))
             for k_, v_ in s2.heap.items():
                 if st.heap.get(k_) is not v_:
                     raise Unsupported("inlined callee %s has heap effects" % fdef.name)
-            cond = band(*pc2.hyp()[base:])
-            rets.append((cond, out[1]))
+            conds = []
+            for h in pc2.hyp()[base:]:
+                if is_z3(h) and h.get_id() in pc2.assumed:
+                    pc.assume(implies(band(*conds), h))      # callee-side assumption: valid under the branch so far
+                else:
+                    conds.append(h)
+            rets.append((band(*conds), out[1]))
         if not rets:
             raise PathAbort()
         return self.merge_values(rets)
@@ -541,6 +574,33 @@ class Engine(object):
         pc.assume(z3.ForAll([k], z3.Implies(z3.And(0 <= k, k < toI(a.n)), z3.Select(new, k) == t)))
         return st.alloc(new, a.n, "copy@%d" % node.lineno)
 
+    def bi_np_searchsorted(self, args, kw, st, pc, node):
+        """assumed numpy contract: for sorted a, side='left': #elements < v ; side='right': #elements <= v"""
+        a, v = args[0], args[1]
+        side = kw.get('side', args[2] if len(args) > 2 else 'left')
+        if isinstance(v, (ArrV, LazyArr, list, tuple)):
+            raise Unsupported("searchsorted with a sequence of values")
+        v = self.need_finite(v, pc, 'searchsorted', node)
+        A = st.acc(a)
+        n = a.n
+        if isinstance(n, int) and all(not is_z3(A[k]) for k in range(n)) and not is_z3(v):
+            vals = [A[k] for k in range(n)]
+            return sum(1 for x in vals if (x < v if side == 'left' else x <= v))
+        r = fresh('ss', I)
+        below = (lambda k: cmp('<', A[k], v)) if side == 'left' else (lambda k: cmp('<=', A[k], v))
+        pc.assume(band(r >= 0, r <= toI(n)))
+        pc.assume(forall(0, n, lambda k: implies(toI(k) < r if not isinstance(k, int) else (k < r), below(k)), name='q'))
+        pc.assume(forall(0, n, lambda k: implies(toI(k) >= r if not isinstance(k, int) else (k >= r), bnot(below(k))), name='q'))
+        return r
+
+    def bi_np_all(self, args, kw, st, pc, node):
+        a = args[0]
+        if isinstance(a, (ArrV, LazyArr)):
+            if not isinstance(a.n, int):
+                raise Unsupported("np.all over symbolic length")
+            return band(*[self.truth(st.elem(a, k), st, pc, node) for k in range(a.n)])
+        return self.truth(a, st, pc, node)
+
     def bi_np_sum(self, args, kw, st, pc, node):
         a = args[0]
         if isinstance(a, (list, tuple)):
@@ -551,7 +611,10 @@ class Engine(object):
         if isinstance(a.n, int):
             r = 0
             for k in range(a.n):
-                r = arith('+', r, st.elem(a, k))
+                x = st.elem(a, k)
+                if is_z3(x) and x.sort() == B:
+                    x = z3.If(x, z3.IntVal(1), z3.IntVal(0))
+                r = arith('+', r, x)
             return r
         raise Unsupported("np.sum over symbolic length (needs a Sigma model)")
     bi_sum = bi_np_sum
@@ -722,8 +785,46 @@ class Engine(object):
         st.vars[s.name] = Closure(s, dict(st.vars))
         return [(st, pc, None)]
 
+    def concretize(self, v, pc, limit=64):
+        """bounded mode keeps integers concrete: enumerate the feasible values of a symbolic Int under pc"""
+        vals = []
+        sol = z3.Solver()
+        sol.set('timeout', 10000)
+        for h in pc.hyp():
+            sol.add(h)
+        while len(vals) <= limit:
+            r = sol.check()
+            if r == z3.unsat:
+                return vals
+            if r != z3.sat:
+                raise Unsupported("cannot enumerate the values of a symbolic integer")
+            k = sol.model().eval(v, model_completion=True).as_long()
+            vals.append(k)
+            sol.add(v != k)
+        raise Unsupported("symbolic integer with more than %d feasible values" % limit)
+
     def st_Assign(self, s, st, pc):
         v = self.ev(s.value, st, pc)
+        if self.mode == 'B' and (is_int_sorted(v) or (isinstance(v, tuple) and any(is_int_sorted(x) for x in v))):
+            items = list(v) if isinstance(v, tuple) else [v]
+            combos = [([], pc)]
+            for x in items:
+                nxt = []
+                for (acc, pcx) in combos:
+                    if not is_int_sorted(x):
+                        nxt.append((acc + [x], pcx))
+                        continue
+                    for k in self.concretize(x, pcx):
+                        nxt.append((acc + [k], pcx.plus(x == k)))
+                combos = nxt
+            out = []
+            for (acc, pcx) in combos:
+                st2 = st.copy()
+                val = tuple(acc) if isinstance(v, tuple) else acc[0]
+                for t in s.targets:
+                    self.assign(t, val, st2, pcx)
+                out.append((st2, pcx, None))
+            return out
         if self.nf_arrays and isinstance(v, ArrV) and len(s.targets) == 1 and isinstance(s.targets[0], ast.Name) \
                 and s.targets[0].id in self.nf_arrays:
             b = st.heap[v.buf]
@@ -944,6 +1045,7 @@ class Engine(object):
                 spec.step(st3, ctx)
             for nm, inv in spec.inv:
                 self.oblige("%s.preserve.%s" % (lname, nm), pc3, self.call_spec(inv, st3, ctx, lname), kind='loop')
+            self.obls.append(Obl("%s.canary" % lname, pc3.hyp(), z3.BoolVal(False), 'canary'))
         out.append((st2, pc2.plus(bnot(g)), None))
         return out
 
